@@ -385,6 +385,7 @@ func childMain(p *Prop, tier string, seed int64, from, to int, witness, outPath 
 
 	delta := childMsg{Kind: "delta", From: from, Counts: map[string]int64{}}
 	sigset := map[string]struct{}{}
+	perKey := map[string]int{}
 	flush := func(upto int) {
 		delta.Upto = upto
 		for s := range sigset {
@@ -404,14 +405,23 @@ func childMain(p *Prop, tier string, seed int64, from, to int, witness, outPath 
 			delta.Counts[k] += v
 		}
 		if len(c.viol) > 0 {
-			sm := marshalSample(c)
-			ex := marshalExtra(c)
+			var sm, ex json.RawMessage
 			seen := map[string]bool{}
 			for _, v := range c.viol {
 				if seen[v.Key] { // one report per key per case
 					continue
 				}
 				seen[v.Key] = true
+				// a tree that violates in a large share of the cases must not ship
+				// millions of written-out witnesses: a few per key per child
+				perKey[v.Key]++
+				if perKey[v.Key] > 20 {
+					delta.Counts["violations_beyond_report_cap"]++
+					continue
+				}
+				if sm == nil {
+					sm, ex = marshalSample(c), marshalExtra(c)
+				}
 				v.Sample = sm
 				v.Extra = ex
 				delta.Viol = append(delta.Viol, v)
